@@ -215,3 +215,31 @@ def check_names_history(ctx, anchor, label, why):
             ctx.expect(same(got, ('Number', st[2])), anchor, f'{label}{kind}: {st[1]} after [{"; ".join(trail)}]',
                        f'after {"; ".join(trail)}{kind}, {st[1]} evaluates to {got!r}, expected {st[2]}. {why}')
     return n
+
+
+def check_loads_are_independent(ctx, anchor, label):
+    """Two workbooks loaded one after the other in ONE process: the first with hidden sheets and every documented keyword of the
+    loader (ignore_hidden=True, an ignore list), the second - with visible sheets of the same titles - with the defaults. The
+    second model is what it is in a process of its own."""
+    first = {'Data': {'A1': 1, 'B2': 2}, 'Calc 2': {'B2': 3}, 'Sheet1': {'A1': '=Data!A1'}}
+    second = {'Data': {'A1': 42, 'B1': 10, 'B2': 13, 'A3': 0}, 'Calc 2': {'B2': 200, 'A1': 1},
+              'Sheet1': {'A1': 1, 'C1': '=Data!A1', 'C2': '=SUM(Data!A1:B3)', 'C3': "='Calc 2'!B2+A1", 'C4': '=Rate*2', 'C5': "=SUM('Calc 2'!A1:B2)"}}
+    names = {'Rate': 'Data!$B$2'}
+    want = {'Sheet1!C1': 42, 'Sheet1!C2': 65, 'Sheet1!C3': 201, 'Sheet1!C4': 26, 'Sheet1!C5': 201, 'Rate': 13}
+    n = 0
+    for how, kw in (('ignore_hidden=True', {'ignore_hidden': True}), ('ignore_sheets=["Data"]', {'ignore_sheets': ['Data']}), ('ignore_hidden=False', {'ignore_hidden': False})):
+        one = W.Workbook(ctx, sheets=first, names={'Rate': 'Data!$B$2'}, hidden={'Data': 'hidden', 'Calc 2': 'veryHidden'}, **kw)
+        two = W.Workbook(ctx, sheets=second, names=names, world=one.world)
+        cells = two.model.f.get('cells')
+        held = sorted(k for k in cells if k.startswith(('Data!', 'Calc 2!'))) if isinstance(cells, dict) else cells
+        n += 1
+        ctx.expect(isinstance(cells, dict) and {'Data!A1', 'Data!B2', 'Calc 2!B2'} <= set(cells), anchor, f'{label}: cells of the second workbook after a load with {how}',
+                   f'a workbook whose sheets Data and Calc 2 are hidden was loaded with {how}; a second workbook with visible sheets of these titles, loaded with '
+                   f'the defaults in the same process, then holds only {held} of them')
+        for addr, w in want.items():
+            got = two.value(addr)
+            n += 1
+            ctx.expect(same(got, ('Number', w)), anchor, f'{label}: {addr} of the second workbook after a load with {how}',
+                       f'after another workbook was loaded with {how}, {addr} of a workbook loaded with the defaults evaluates to {got!r}, expected {w}: '
+                       'what one load was told to leave out is no business of the next')
+    return n
